@@ -359,6 +359,9 @@ def sib9(ctx, pid):
                 okv = True
     if okv:
         ctx.ok("hash-length:validate_is_node", v.loc(), "hashed children of a branch must be 32 bytes", nontrivial=False)
+    elif any(isinstance(c_, ast.Call) and ast.unparse(c_.func) == "validate_length" and len(c_.args) == 2 and isinstance(c_.args[1], ast.Constant) and c_.args[1].value == 32
+             for c_ in ast.walk(v.node)) and any(isinstance(n_, ast.While) for n_ in ast.walk(v.node)):
+        ctx.unsure("hash-length:validate_is_node", v.loc(), "validate_is_node checks a 32-byte length inside a work-list loop the rule cannot relate to the branch's children")
     else:
         ctx.bad("hash-length:validate_is_node", v.loc(), "validate_is_node no longer requires 32-byte child hashes")
     # ABS6: the root is always hashed and stored; blank -> BLANK_NODE_HASH
